@@ -736,7 +736,11 @@ LEAFLIKE = ('CKMGate', 'CKMdgGate', 'U3Gate', 'U2Gate', 'U8Gate', 'CUGate', 'Pha
 def run_task(task):
     """One construction, all its points.  Runs in a worker process."""
     try:
-        return _run_task(task)
+        import time as _tm
+        _t = _tm.time()
+        r = _run_task(task)
+        r['secs'] = _tm.time() - _t
+        return r
     except Exception as e:
         import traceback
         tb = traceback.format_exc()
@@ -760,6 +764,7 @@ def _run_task(task):
     from bqskit.qis.unitary.unitarymatrix import UnitaryMatrix
     idx, spec, points, seed, want_exact = task[:5]
     skip_opt = len(task) > 5 and task[5]
+    heavy = len(task) > 6 and task[6]
     res = {'idx': idx, 'viol': [], 'exact': [], 'counts': {}, 'meta': None, 'bad': set()}
     name = spec_name(spec)
     oc = outer_class(spec)
@@ -1066,14 +1071,14 @@ def _run_task(task):
                 for s0 in (arg, starts[-1]):
                     try:
                         r = so.minimize(lambda p: -fn(p), s0, method='Nelder-Mead',
-                                        options={'maxiter': 300 * np_, 'xatol': 1e-9,
+                                        options={'maxiter': (300 if heavy else 120) * np_, 'xatol': 1e-9,
                                                  'fatol': 1e-12})
                         if -r.fun > best:
                             best, arg = -r.fun, [float(x) for x in r.x]
                     except Exception:
                         pass
             return best, arg
-        for t in range(3):
+        for t in ((0, 1, 2) if heavy else (0, 2)):
             env = rs.normal(size=(dim, dim)) + 1j * rs.normal(size=(dim, dim))
             if t == 2 and np_:   # environment of a nearby gate: env = U(p)^dag
                 env = np.asarray(g.get_unitary(
@@ -1095,7 +1100,7 @@ def _run_task(task):
             if np_ == 0:
                 continue
             sc = 1e-6 * max(1.0, float(np.abs(env).sum()))
-            starts = [list(rs.uniform(-PI, PI, size=np_)) for _ in range(40)] + [ps]
+            starts = [list(rs.uniform(-PI, PI, size=np_)) for _ in range(40 if heavy else 20)] + [ps]
             got_re = tr_of(env, ps).real
             got_abs = abs(tr_of(env, ps))
             alt_re, arg_re = search(lambda p: tr_of(env, p).real, starts)
@@ -1265,7 +1270,7 @@ def run(ck: Check):
                 g = build(s)
                 np_ = g.num_params
             except Exception:
-                tasks.append((i, s, [], 0, False, False))
+                tasks.append((i, s, [], 0, False, False, thorough))
                 continue
             d = drv_of(s)
             rates = d[1] if d else None
@@ -1279,7 +1284,7 @@ def run(ck: Check):
             if np_ > 8:       # many-parameter gates: fewer points
                 pts = pts[:8]
             tasks.append((i, s, pts, rng.getrandbits(31), d is not None,
-                          bool(set(leaf_classes(s)) & bad_opt)))
+                          bool(set(leaf_classes(s)) & bad_opt), thorough))
         with ctx.Pool(nproc) as pool:
             results = pool.map(run_task, tasks, chunksize=max(1, len(tasks) // (nproc * 6)))
         for r in results:
@@ -1311,6 +1316,8 @@ def run(ck: Check):
     all_results += list(zip(tasks2, res2))
     phase('composed')
 
+    slow = sorted(((r.get('secs', 0), spec_name(t[1])[:80]) for t, r in all_results), reverse=True)[:8]
+    ck.coverage['slowest_constructions_s'] = [(round(a, 1), b) for a, b in slow]
     # ---------------------------------------------------- collect violations
     covered = set()
 
@@ -1401,6 +1408,13 @@ def run(ck: Check):
         e, rates = drv_of(s)
         for kind, toks, vals, U, G, Ui in r['exact']:
             tail = ''.join(' | ' + t for t in toks)
+            if not thorough:
+                # quick tier: exact arithmetic on big composed gates is left to thorough
+                d_ = U.shape[0]
+                if d_ > 32:
+                    continue
+                if G is not None and d_ * d_ * len(G) > 1100:
+                    G = None
             lines.append(f'u | {e}{tail}')
             back.append(('u', s, vals, U, rates))
             if G is not None:
